@@ -92,3 +92,12 @@ pub open spec fn cur(c: &Compiler) -> Instructions { c.scopes@[c.scope_index as 
 pub fn compile_program_shim(c: &mut Compiler, program: Program) -> (r: (Result<(), CompileError>, Ghost<bool>))
     ensures r.1@ ==> final(c).encoding_error is Some
 { unimplemented!() }
+
+pub open spec fn be16(v: u16) -> Seq<u8> { seq![(v / 256) as u8, (v % 256) as u8] }
+#[verifier::external_body]
+pub fn u16_to_be_bytes(v: u16) -> (r: [u8; 2]) ensures r@ == be16(v) { v.to_be_bytes() }
+#[verifier::external_body]
+pub fn copy_into(dst: &mut Vec<u8>, a: usize, b: usize, src: &[u8; 2])
+    requires a <= b <= old(dst)@.len(), b - a == 2
+    ensures final(dst)@ == old(dst)@.subrange(0, a as int) + src@ + old(dst)@.subrange(b as int, old(dst)@.len() as int)
+{ dst[a..b].copy_from_slice(src); }
